@@ -15,6 +15,8 @@ From Compio.Model Require Import Base Frame Cmsg RecvMsgOut.
 From Compio.Model Require IoHelpers.
 From Compio.Gen Require Consts.
 From Compio.Thm Require Import FrameThm CmsgThm RecvMsgOutThm.
+From Compio.Gen Require Frag.
+From Compio.Thm Require FragIoThm.
 
 (* ---------------------------------------------------------------------- *)
 (* round trip                                                               *)
@@ -422,3 +424,17 @@ Example C13_fixed_cmsg_slice_witness :
   exists bytes, build 24 [mkmsg 1 2 [9;8;7;6]%N] = Ok ([0%N], bytes) /\ length bytes = 24.
 Proof. split; [|split]; [vm_compute; reflexivity..|]. eexists. split; vm_compute; reflexivity. Qed.
 Print Assumptions C13_fixed_cmsg_slice_witness.
+
+(* ---- source tie (translated from the Rust source on every run by tools/rs2v.py
+        into gen/Frag.v; an edit of the function changes the generated definition) ---- *)
+(* the two guards and the frame of LengthDelimited::extract (compio-io/src/framed/frame.rs)
+   as the source has them now are the model's extract for the length-delimited framer,
+   for every width, byte order and window *)
+Theorem C13_length_delimited_extract_is_source : forall lfl be w,
+  extract (LenDelim lfl be) w =
+    if Frag.ld_too_short (NN (length w)) (NN lfl) then Ok None
+    else let len := len_value be (firstn lfl w) in
+         if Frag.ld_incomplete (NN (length w)) (NN lfl) len then Ok None
+         else let '(p, l, s) := Frag.ld_frame (NN lfl) len in Ok (Some (mkframe (nn p) (nn l) (nn s))).
+Proof. exact FragIoThm.ld_extract_tie. Qed.
+Print Assumptions C13_length_delimited_extract_is_source.
